@@ -183,18 +183,33 @@ Definition noprereq (c:cent) : bool :=
   negb (c_q c) && negb (c_u c) && negb (c_z c) && (match c_dvs c with [] => true | _ => false end) && (match c_ces c with [] => true | _ => false end).
 (* markCacheValueRealized below the depends-on stage (documented precondition: stage >= earliest) *)
 Definition mark_ok (s:st) (k:key) : bool := c_dep (get_ce k s) <=? s_stage (get_sub (fst k) s).
-(* auto-update would swap a variable that some cache entry lists as explicit prerequisite *)
-Definition auto_ok (s:st) : bool :=
-  forallb (fun dk => match d_auto (get_dv dk s) with
-                     | Some cx => negb (isUpToDate s (fst dk,cx)) || (match d_deps (get_dv dk s) with [] => true | _ => false end)
-                     | None => true end) (all_dv_keys s).
+(* auto-update would swap a variable that some cache entry lists as explicit prerequisite (checked for every variable
+   in the state in which its turn comes) *)
+Definition auto_ok1 (s:st) (dk:key) : bool :=
+  match d_auto (get_dv dk s) with
+  | Some cx => negb (isUpToDate s (fst dk,cx)) || (match d_deps (get_dv dk s) with [] => true | _ => false end)
+  | None => true
+  end.
+Fixpoint auto_legal (cf:cfg) (s:st) (l:list key) : bool :=
+  match l with [] => true | dk::t => auto_ok1 s dk && auto_legal cf (auto_one cf s dk) t end.
 Definition legal (cf:cfg) (s:st) (o:op) : bool :=
   match o with
   | Mark k => mark_ok s k
   | MarkDVUpd k => match d_auto (get_dv k s) with Some cx => mark_ok s (fst k,cx) | None => true end
-  | AutoUpdate => fix_auto cf || auto_ok s
+  | AutoUpdate => fix_auto cf || auto_legal cf s (all_dv_keys s)
   | _ => true
   end.
 (* a copy source some of whose entries carry a recorded version for a stage above the subsystem's current stage *)
 Definition copy_ok (cf:cfg) (s:st) : bool :=
   fix_copyver cf || forallb (fun k => (c_dep (get_ce k s) <=? s_stage (get_sub (fst k) s)) || (c_verWhen (get_ce k s) =? 0)) (all_ce_keys s).
+
+(** run-time operations: everything that happens after allocation is finished and that does not back the state up
+    below Instance (no allocation stack changes) *)
+Definition runtime (s:st) (o:op) : bool :=
+  match o with
+  | AdvSub _ _ | AdvSys _ | Upd _ | SetCE _ _ | Mark _ | Unmark _ | MarkDVUpd _ | SetDVUpd _ _ | AutoUpdate | GetCE _ | Query => true
+  | InvalidateAll g => 4 <=? g
+  | InvalidateCache g => (g <? 3) || (4 <=? g)
+  | SetDV k _ => 4 <=? d_inval (get_dv k s)
+  | _ => false
+  end.
